@@ -205,6 +205,9 @@ func storeSpecs(prop string, under []Kind, tier string, depthQuick, depthThoroug
 			if tune != nil {
 				tune(sp, &o)
 			}
+			if tier == "thorough" && (a.K == 'D' || a.K == 'S') && prop == "C04" {
+				sp.Depth++ // the array-backed and hash stores are cheap: one level deeper
+			}
 			sp.Ops = storeAlphabet(o)
 			if mc.MapOrderControlled {
 				// order deviations for the operations that walk a map: a sparse source
@@ -223,6 +226,17 @@ func storeSpecs(prop string, under []Kind, tier string, depthQuick, depthThoroug
 						sp.Ops = append(sp.Ops, withOrder(opProto(1, 0, true), ord))
 					}
 				}
+			}
+			if tier == "thorough" && a.K == 'P' && len(sp.Seeds) > 1 {
+				// one shard per seed: the paginated worlds are the heavy ones and there
+				// are fewer of them than cores (states shared between seeds are re-explored)
+				for _, sd := range sp.Seeds {
+					c := *sp
+					c.Name = sp.Name + "/seed=" + sd.Name
+					c.Seeds = []mc.Seed[*StoreWorld]{sd}
+					out = append(out, &c)
+				}
+				continue
 			}
 			out = append(out, sp)
 		}
